@@ -156,15 +156,50 @@ def run(tier):
             for q in params:
                 pj["init"].insert(0, ["assign", q, ["expr", ["num", s0[q]]], ["tt"], q])
             return pj
+        src_names = set()
+        _walk_vars(snaps[0]["program"], src_names)
+
+        def body_assigned(stmts, acc):
+            for st in stmts:
+                if st[0] == "assign":
+                    acc.add(st[1])
+                elif st[0] == "ite":
+                    body_assigned(st[2], acc)
+                    body_assigned(st[3], acc)
+            return acc
+
+        def read_only(pj):
+            """source variables the program mentions but never assigns in its body (loop constants)"""
+            names = set()
+            _walk_vars(pj, names)
+            return (names & src_names) - body_assigned(pj["body"], set()) - set(params)
+
+        def add_pair(a, b, label):
+            ra, rb = read_only(a["program"]), read_only(b["program"])
+            if ra != rb:
+                # a loop constant was folded away between the two snapshots: its symbol would be foreign to one side
+                chk.count("V3:skipped-constant-folding:" + label.split("->")[1])
+                return
+            na, nb = set(), set()
+            _walk_vars(a["program"], na)
+            _walk_vars(b["program"], nb)
+            # observe every source variable that both snapshots still contain
+            obs = sorted(((src_names & na & nb) | set(body_vars)) - set(params))
+            vreqs.append({"op": "same_step", "p": prep(a["program"]), "q": prep(b["program"]),
+                          "vars": obs, "types": types, "cap": 4096})
+            vmeta.append((ji, label))
         for a, b in zip(snaps, snaps[1:]):
             if a["program"] == b["program"]:
                 continue
-            vreqs.append({"op": "same_step", "p": prep(a["program"]), "q": prep(b["program"]), "vars": body_vars,
-                          "types": types, "cap": 4096})
-            vmeta.append((ji, a["pass"] + "->" + b["pass"]))
-        vreqs.append({"op": "same_step", "p": prep(snaps[0]["program"]), "q": prep(snaps[-1]["program"]), "vars": body_vars,
-                      "types": types, "cap": 4096})
-        vmeta.append((ji, "parsed->final"))
+            add_pair(a, b, a["pass"] + "->" + b["pass"])
+        # long-range pairs: parsed -> final, or around the constant folding when that changes the variable set
+        if read_only(snaps[0]["program"]) == read_only(snaps[-1]["program"]):
+            add_pair(snaps[0], snaps[-1], "parsed->final")
+        else:
+            ci = next((i for i, sn in enumerate(snaps) if sn["pass"] == "ConstantsTransformer"), None)
+            if ci is not None and ci >= 1:
+                add_pair(snaps[0], snaps[ci - 1], "parsed->before-constants")
+                add_pair(snaps[ci], snaps[-1], "after-constants->final")
     vans = model_batch_parallel(vreqs, timeout=60) if vreqs else []
     n_bisim = 0
     for (ji, label), a in zip(vmeta, vans):
